@@ -153,44 +153,43 @@ def check_classification(rep, http, cfg):
     if f is None:
         rep.missing('R15.b', 'async body of Response::new (%s)' % cfg)
         return
-    tests = {}
-    for bb, t in f.calls(HT + '::status_code::StatusCode::is_client_error', HT + '::status_code::StatusCode::is_server_error'):
-        # the switch on the result
-        nxt = t['tg']
-        sw = f.blocks[nxt]['t']
-        if sw['k'] != 'switch':
-            continue
-        false_edge = [(nxt, a[1]) for a in sw['arms'] if a[0] == 0]
-        true_edge = (nxt, sw['otherwise'])
-        status_src = origins(f, t['args'][0])
-        tests[last_seg(t['callee'])] = (bb, false_edge[0] if false_edge else None, true_edge, status_src)
-    if set(tests) != {'is_client_error', 'is_server_error'}:
-        rep.bad('R15.b', 'tests@' + cfg, 'Response::new must test both is_client_error and is_server_error; found %s' % sorted(tests))
-        return
+    # The classification is evaluated over the five status classes instead of being read off one particular shape: for each class
+    # every StatusCode::is_<class>() call on the response status is given its value, and path-sensitive reachability says which outcome
+    # can be built.  4xx and 5xx must yield HttpError::Http and nothing else; 1xx, 2xx and 3xx the Response and nothing else.
+    CLASSES = ['informational', 'success', 'redirection', 'client_error', 'server_error']
+    class_calls = [(bb, t) for bb, t in f.calls() if norm(t.get('callee') or '').startswith(HT + '::status_code::StatusCode::is_') and
+                   last_seg(t['callee'])[3:] in CLASSES]
     err_blocks = [bb for bb, i, s in f.stmts('assign') if s['rv']['k'] == 'agg' and s['rv'].get('adt', '').endswith('HttpError')
                   and s['rv']['variant'] == 'Http']
     ok_aggs = [(bb, s) for bb, i, s in f.stmts('assign') if s['rv']['k'] == 'agg' and
                path_matches(s['rv'].get('adt'), 'response::response::Response')]
-    if len(err_blocks) != 1 or len(ok_aggs) != 1:
-        rep.bad('R15.b', 'aggregates@' + cfg, 'expected one HttpError::Http and one Response construction, found %d / %d'
+    if not class_calls:
+        rep.bad('R15.b', 'tests@' + cfg, 'Response::new no longer classifies the status through StatusCode::is_*() tests')
+        return
+    if len(err_blocks) < 1 or len(ok_aggs) != 1:
+        rep.bad('R15.b', 'aggregates@' + cfg, 'expected HttpError::Http and one Response construction, found %d / %d'
                 % (len(err_blocks), len(ok_aggs)))
         return
-    E = err_blocks[0]
     K, kagg = ok_aggs[0]
-    t_edges = [v[2] for v in tests.values()]
-    f_edges = [v[1] for v in tests.values()]
     site = 'Response::new@' + cfg
-    rep.expect('R15.b', E not in f.reachable([0], removed_edges=t_edges), 'err-only-on-error-edges',
-               'HttpError::Http is built only along an is_client_error/is_server_error true edge',
-               'HttpError::Http is reachable without a client/server error test being true', site=site + '#1')
-    for name, v in tests.items():
-        other = [x[2] for n, x in tests.items() if n != name]
-        rep.expect('R15.b', E in f.reachable([0], removed_edges=other), 'err-on-' + name,
-                   '%s alone reaches the error return' % name,
-                   'the %s true edge no longer reaches the error return' % name, site=site + '#' + name)
-        rep.expect('R15.b', K not in f.reachable([0], removed_edges=[v[1]]), 'ok-needs-not-' + name,
-                   'success is built only when %s is false' % name,
-                   'the success response is reachable although %s may be true' % name, site=site + '#not-' + name)
+    tests = {}
+    for bb, t in class_calls:
+        tests[last_seg(t['callee'])] = (bb, None, None, origins(f, t['args'][0]))
+    for cls in CLASSES:
+        def values(b_, t_, cls=cls):
+            cn_ = norm(t_.get('callee') or '')
+            if cn_.startswith(HT + '::status_code::StatusCode::is_') and last_seg(cn_)[3:] in CLASSES:
+                return 1 if last_seg(cn_)[3:] == cls else 0
+            return None
+        r = f.reachable_ps([0], call_values=values)
+        err = any(b in r for b in err_blocks)
+        ok_ = K in r
+        want_err = cls in ('client_error', 'server_error')
+        rep.expect('R15.b', err == want_err and ok_ == (not want_err), 'class-' + cls,
+                   '%s status -> %s only' % (cls, 'HttpError::Http' if want_err else 'success'),
+                   'Response::new: for a %s status the error outcome is %sreachable and the success outcome is %sreachable (4xx/5xx must become '
+                   'HttpError::Http, 1xx-3xx a success carrying status, headers and body)' % (cls, '' if err else 'un', '' if ok_ else 'un'),
+                   site=site + '#' + cls)
     # same status in test and both results
     def status_calls(op):
         return sorted(set(norm(o.term.get('callee')) for o in origins(f, op) if o.kind == 'call'))
@@ -209,8 +208,8 @@ def check_classification(rep, http, cfg):
     rep.expect('R15.b', status_ok and st_src and all(o.kind == 'call' and path_matches(o.term.get('callee'), 'ResponseAsync::status')
                                                      for o in st_src), 'status-provenance',
                'tested status and returned status both come from ResponseAsync::status()',
-               'status provenance changed: tests %s, result %s' % ([status_calls(t['args'][0]) for _, t in f.calls(
-                   HT + '::status_code::StatusCode::is_client_error')], [repr(o) for o in st_src]), site=site + '#status')
+               'status provenance changed: tests %s, result %s' % ([status_calls(t['args'][0]) for _, t in class_calls], [repr(o) for o in st_src]),
+               site=site + '#status')
     hd_ok = bool(hd_src) and all(o.kind == 'call' and call_matches(o.term, ['core::clone::Clone::clone']) for o in hd_src)
     rep.expect('R15.b', hd_ok, 'headers-provenance', 'headers are a clone of the response\'s Headers',
                'headers of the result no longer come from a clone of the response headers: %s' % [repr(o) for o in hd_src],
